@@ -558,6 +558,7 @@ def emit_function(tr: Translator, name: str, body_stmts: list, params: list, ret
     env0 = {p: t for p, t in params}
     ret, muts, env0, pre = generator_parts(ret, muts, env0)
     mode = FuncMode(tr, ret, muts)
+    mode.outside_if_raises = tuple(getattr(tr, "func_specs", {}).get(name, {}).get("outside_if_raises", ()))
     body = pre + mode.stmts(body_stmts, env0)
     ps = " ".join(f"({mangle(p)} : {coq_type(t)})" for p, t in params)
     rt = f"outcome {coq_type(ret)}" + "".join(f" * {coq_type(t)}" for _, t in muts)
@@ -577,16 +578,40 @@ def add_function(tr: Translator, node: ast.FunctionDef):
         if pn in fixed | dropped:
             if pn in fixed and not (isinstance(d, ast.Constant) and d.value is None):
                 bad(node, f"{pn} is fixed to None by the unit but defaults to something else")
-        elif not (pn in spec.get("param_types", {}) ):
+        elif not (pn in spec.get("param_types", {}) or pn in spec.get("factories", {})):
             bad(node, "parameter kinds / defaults")
 
     def ptype(p_):
         ov = spec.get("param_types", {}).get(p_.arg)
         return ann_type(ast.parse(ov, mode="eval").body if ov else p_.annotation, tr.classes)
-    params = [(p.arg, ptype(p)) for p in (a.args + a.kwonlyargs) if p.arg not in fixed | dropped]
+    factories = dict(spec.get("factories", {}))  # a parameter that is a factory callable, fixed to its default `lambda: C()`
+    for pn, cname in factories.items():
+        d = {**pos_defaults, **kw_defaults}.get(pn)
+        if d is None or ast.unparse(d) != f"lambda: {cname}()":
+            bad(node, f"{pn} is fixed to its default by the unit, which is expected to be `lambda: {cname}()`")
+    params = [(p.arg, ptype(p)) for p in (a.args + a.kwonlyargs) if p.arg not in fixed | dropped | set(factories)]
     ret = ann_type(ast.parse(spec["returns"], mode="eval").body if "returns" in spec else node.returns, tr.classes)
-    tr.functions[node.name] = (params, ret)
     body = list(node.body)
+    # what a call the unit does not translate (IO) has produced is handed in instead: `a, b = f(..)` is dropped, a and b are parameters
+    for fname, names in spec.get("given", {}).items():
+        hits = [i for i, st in enumerate(body) if isinstance(st, ast.Assign) and len(st.targets) == 1 and isinstance(st.value, ast.Call)
+                and isinstance(st.value.func, ast.Name) and st.value.func.id == fname]
+        if len(hits) != 1:
+            bad(node, f"exactly one top-level `.. = {fname}(..)` is expected")
+        tg = body[hits[0]].targets[0]
+        got = [e.id for e in tg.elts] if isinstance(tg, ast.Tuple) and all(isinstance(e, ast.Name) for e in tg.elts) else [tg.id] if isinstance(tg, ast.Name) else None
+        if got != [n for n, _ in names]:
+            bad(body[hits[0]], f"the targets of {fname}(..) are expected to be {[n for n, _ in names]}")
+        del body[hits[0]]
+        params = params + [(n, ann_type(ast.parse(t, mode="eval").body, tr.classes)) for n, t in names]
+    if fixed or factories or dropped:
+        body = [FixedParams(fixed, factories).visit(st) for st in body]
+        for st in body:
+            ast.fix_missing_locations(st)
+    for n_ in spec.get("ignore_locals", ()):  # locals that only feed error messages
+        body = [DropLocal(n_).visit(st) for st in body]
+        body = [st for st in body if st is not None]
+    tr.functions[node.name] = (params, ret)
     for pn in sorted(fixed):
         asg = ast.Assign(targets=[ast.Name(id=pn, ctx=ast.Store())], value=ast.Constant(value=None))
         body.insert(0, ast.fix_missing_locations(ast.copy_location(asg, node)))
@@ -763,8 +788,18 @@ class Mode:
             return self.stmts([ast.fix_missing_locations(ast.copy_location(loop, s))] + rest, env)
         if isinstance(s, ast.For) and isinstance(s.iter, (ast.Call, ast.Attribute, ast.Name)) and self.gen_call(s.iter, env) is not None:
             gcf = self.gen_call(s.iter, env)
+            # a producer whose items are themselves generators (`yield decoder.iter_rows(frame)`): when it ends with an exception, that
+            # exception really arises while the CONSUMER iterates the last item -- where exactly depends on what the consumer does with
+            # the item.  A consumer that says so in its spec refuses such runs (OutsideModel) instead of placing the exception itself
+            strict_ = isinstance(s.iter, ast.Call) and isinstance(s.iter.func, ast.Name) \
+                and s.iter.func.id in getattr(self, "outside_if_raises", ())
 
             def k_for(code, r_, ys_, yt_, env_):
+                if strict_:
+                    return code + f"match {r_} with\n| Exn _ => {self.on_exn('OutsideModel')}\n| Val _ =>\n" + k_for0("", r_, ys_, yt_, env_) + "\nend"
+                return k_for0(code, r_, ys_, yt_, env_)
+
+            def k_for0(code, r_, ys_, yt_, env_):
                 tmp = self.tr.gensym("items")
                 marker = ast.Pass()
                 marker._raise_if = r_
@@ -1214,6 +1249,9 @@ class Mode:
             if not (isinstance(xt, tuple) and xt[0] in ("seq", "iter", "set")):
                 bad(s, f"iteration over {xt}")
             et = xt[1]
+            if DYN and et == ("opt", "any") and xt[0] == "seq":
+                # items that are a dynamic value or None: None is a dynamic value too (O_None)
+                xs, et = f"(map opt_obj {xs})", "any"
             x = mangle(s.target.id)
             saved = (self.ret_val, self.fall_off, self.on_exn, getattr(self, "loop_ctl", None))
             env_b = dict(env)
@@ -1649,6 +1687,13 @@ class Mode:
 
     def args(self, call, params, env, k):
         """Evaluate the arguments of a call against the callee's parameter list -> list of Coq terms."""
+        if isinstance(call.func, ast.Name) and call.func.id in getattr(self.tr, "func_specs", {}):
+            # keyword arguments for parameters the unit dropped from the callee (unused there; a plain name here: evaluating it does nothing)
+            gone = set(self.tr.func_specs[call.func.id].get("unused", ()))
+            if any(kw.arg in gone and not isinstance(kw.value, ast.Name) for kw in call.keywords):
+                bad(call, "an argument for a dropped parameter that is not a plain name")
+            if any(kw.arg in gone for kw in call.keywords):
+                call = ast.copy_location(ast.Call(func=call.func, args=call.args, keywords=[kw for kw in call.keywords if kw.arg not in gone]), call)
         if len(call.args) + len(call.keywords) != len(params):
             bad(call, "argument count")
         by_name = {kw.arg: kw.value for kw in call.keywords}
@@ -2341,7 +2386,7 @@ UNITS = {
                            "skip_fields": ["parsing_mode"], "drop_params": ["parsing_mode"], "then_deferred": True,
                            # (the source annotates the decoded IRI handed to namespace_declaration as `str` in the base class)
                            "param_types": {"namespace_declaration.iri": "Any"}},
-                          "parse_triples_stream", "parse_quads_stream", "parse_jelly_flat"],
+                          "parse_triples_stream", "parse_quads_stream", "parse_jelly_flat", "parse_jelly_grouped", "parse_jelly_to_graph"],
                       "functions": {
                           # frame_metadata (a ContextVar the caller may pass to receive each frame's metadata) is left out: None
                           "parse_triples_stream": {"fixed_none": ["frame_metadata"], "param_types": {"frames": "list[jelly.RdfStreamFrame]"},
@@ -2352,7 +2397,16 @@ UNITS = {
                           # called with frames and options given, it does not touch inp
                           "parse_jelly_flat": {"unused": ["inp"], "param_types": {"frames": "list[jelly.RdfStreamFrame]", "options": "ParserOptions",
                                                                                   "logical_type_strict": "bool"},
-                                               "returns": "Generator[Any | None]"}}},
+                                               "returns": "Generator[Any | None]"},
+                          # the grouped parser: options and frames as get_options_and_frames (IO) returned them are handed in; the sink factory
+                          # and the metadata variable at their defaults
+                          "parse_jelly_grouped": {"unused": ["inp"], "fixed_none": ["frame_metadata"], "factories": {"sink_factory": "GenericStatementSink"},
+                                                  "given": {"get_options_and_frames": [["options", "ParserOptions"], ["frames", "list[jelly.RdfStreamFrame]"]]},
+                                                  "param_types": {"logical_type_strict": "bool"}, "ignore_locals": ["lt_name"],
+                                                  "outside_if_raises": ["parse_triples_stream", "parse_quads_stream"],
+                                                  "returns": "Generator[GenericStatementSink]"},
+                          "parse_jelly_to_graph": {"unused": ["inp"], "factories": {"sink_factory": "GenericStatementSink"},
+                                                   "given": {"get_options_and_frames": [["options", "ParserOptions"], ["frames", "list[jelly.RdfStreamFrame]"]]}}}},
     # the generic integration's term encoder: the two methods TermEncoder leaves to its subclasses, over the generic terms
     "generic_serialize": {"src": "pyjelly/integrations/generic/serialize.py", "ctx": True,
                           "uses": ["lookup_enc", "options", "encode", "flows", "streams", "generic_sink"],
@@ -2420,6 +2474,41 @@ class ForeignNames(ast.NodeTransformer):
             if isinstance(a, ast.Attribute) and a.attr in self.spec.get("str_valued", ()) and isinstance(b, ast.Call) and isinstance(b.func, ast.Name) \
                     and b.func.id == "str" and len(b.args) == 1 and not b.keywords and ast.unparse(b.args[0]) == ast.unparse(a):
                 return a
+        return n
+
+
+class FixedParams(ast.NodeTransformer):
+    """Parameters the unit fixes: `f(**{"k": k} if k is not None else {})` with k fixed to None is f(); `factory()` is `C()`."""
+
+    def __init__(self, fixed: set, factories: dict):
+        self.fixed, self.factories = fixed, factories
+
+    def visit_Call(self, n):
+        self.generic_visit(n)
+        if isinstance(n.func, ast.Name) and n.func.id in self.factories and not n.args and not n.keywords:
+            return ast.copy_location(ast.Call(func=ast.Name(id=self.factories[n.func.id], ctx=ast.Load()), args=[], keywords=[]), n)
+        kws = []
+        for kw in n.keywords:
+            if kw.arg is None:
+                v = kw.value
+                if isinstance(v, ast.IfExp) and isinstance(v.test, ast.Compare) and len(v.test.ops) == 1 and isinstance(v.test.left, ast.Name) \
+                        and v.test.left.id in self.fixed and isinstance(v.test.comparators[0], ast.Constant) and v.test.comparators[0].value is None:
+                    v = v.orelse if isinstance(v.test.ops[0], ast.IsNot) else v.body if isinstance(v.test.ops[0], ast.Is) else v
+                if isinstance(v, ast.Dict) and all(isinstance(k_, ast.Constant) and isinstance(k_.value, str) for k_ in v.keys):
+                    kws += [ast.keyword(arg=k_.value, value=x_) for k_, x_ in zip(v.keys, v.values)]
+                    continue
+            kws.append(kw)
+        n.keywords = kws
+        return n
+
+
+class DropLocal(ast.NodeTransformer):
+    def __init__(self, name: str):
+        self.name = name
+
+    def visit_Assign(self, n):
+        if len(n.targets) == 1 and isinstance(n.targets[0], ast.Name) and n.targets[0].id == self.name:
+            return None
         return n
 
 
